@@ -25,7 +25,7 @@ RULE = ('graphs from vlib.scalegen.gen_graph; non-trivial = graph with >=2 scale
 ASSUMPTIONS = ['int raw data is converted to float64 before Linear/Polynomial/Table evaluation (NumPy promotion)']
 REQUIRED = ['graphs', 'scaled_compared', 'windows_compared', 'lazy_compared', 'purity_checks', 'level:channel', 'level:group', 'level:root',
             'status_scaled_cases', 'daqmx_graphs', 'precedence_cases', 'no_count_property']
-N = {'quick': 3000, 'thorough': 100000}
+N = {'quick': 10000, 'thorough': 100000}
 
 
 def gen_cases(tier, seed):
